@@ -1,0 +1,11 @@
+//go:build verif
+
+// Contracts for the verification machinery in /verif (comment-only; compiled only with -tags verif).
+
+package operation
+
+//@ func (QueuedOperationsAtTime).QueuedOperations
+//@   requires forall q int :: 0 <= q && q < len(o) ==> o[q] != nil
+//@   loop 1
+//@     invariant len(ops) == len(o) && (forall q int :: 0 <= q && q < len(o) ==> o[q] != nil)
+//@   ensures len(result) == len(o)
